@@ -112,4 +112,58 @@ def mertonTripletA (lam muJ : Rat) : Rat := -lam * muJ
 /-- Markov-chain route (markovchain.py:155-171): `drift() + a_tilde + mu_tilde - mu_h` -/
 def ctmcDrift (modelDrift aTilde muTilde muH : Rat) : Rat := modelDrift + aTilde + muTilde - muH
 
+/-! ### exponent at a real (moment-generating) argument and the coded cumulants
+
+`levy_exponent(-i s) = a s + (s sigma)^2/2 + levy_exponent_pure_jump(s)` (levymodel.py:402-410 at x = -i s): the cumulant
+generating exponent.  For HEM it is a rational function of rational parameters and a rational `s`; for Merton the only
+non-rational operation is one `exp`, whose argument `mertonKappaArg` is rational. -/
+
+/-- levymodel.py:408 at x = -i s, with the pure-jump value `kappa = levy_exponent_pure_jump(s)` -/
+def cgfOf (a sigma s kappa : Rat) : Rat := s * a + (s * sigma) * (s * sigma) / 2 + kappa
+
+def hemCgf (a sigma lam p eta1 eta2 s : Rat) : Rat := cgfOf a sigma s (hemKappa lam p eta1 eta2 s)
+
+/-- merton.py:183-186: `levy_exponent_pure_jump(x) = intensity * (exp(mertonKappaArg) - 1)` -/
+def mertonKappaArg (muJ sigmaJ x : Rat) : Rat := muJ * x + (sigmaJ * x) * (sigmaJ * x) / 2
+
+/-- x², x⁴, x⁶ as explicit products (core `Rat`, no Mathlib power) -/
+def p2 (x : Rat) : Rat := x * x
+def p4 (x : Rat) : Rat := x * x * x * x
+def p6 (x : Rat) : Rat := x * x * x * x * x * x
+
+/-- hem.py:177-200 `_HEMCumulant.cumulant{1,2,4,6}(t)` -/
+def hemCumulant1 (drift lam p eta1 eta2 t : Rat) : Rat := (drift + lam * (p / eta1 - (1 - p) / eta2)) * t
+def hemCumulant2 (sigma lam p eta1 eta2 t : Rat) : Rat := (p2 sigma + 2 * lam * (p / p2 eta1 + (1 - p) / p2 eta2)) * t
+def hemCumulant4 (lam p eta1 eta2 t : Rat) : Rat := 24 * lam * (p / p4 eta1 + (1 - p) / p4 eta2) * t
+def hemCumulant6 (lam p eta1 eta2 t : Rat) : Rat := 720 * lam * (p / p6 eta1 + (1 - p) / p6 eta2) * t
+
+/-- merton.py:118-157 `_MertonCumulant.cumulant{1,2,4,6}(t)` -/
+def mertonCumulant1 (drift lam muJ t : Rat) : Rat := (drift + lam * muJ) * t
+def mertonCumulant2 (sigma lam muJ sigmaJ t : Rat) : Rat := (p2 sigma + lam * (p2 muJ + p2 sigmaJ)) * t
+def mertonCumulant4 (lam muJ sigmaJ t : Rat) : Rat := lam * (p4 muJ + 3 * p4 sigmaJ + 6 * p2 muJ * p2 sigmaJ) * t
+def mertonCumulant6 (lam muJ sigmaJ t : Rat) : Rat :=
+  lam * (45 * p4 sigmaJ * p2 muJ + 15 * p2 sigmaJ * p4 muJ + p6 muJ + 15 * p6 sigmaJ) * t
+
+/-! ### exponent at a complex argument, as exact rational real / imaginary parts
+
+`levy_exponent_pure_jump(z)` at z = x + i y (hem.py:216-219: each fraction multiplied by the conjugate of its denominator),
+the argument of Merton's `exp` (merton.py:186), and `levy_exponent(w)` at w = u + i v (levymodel.py:408: i w = −v + i u). -/
+
+def hemKappaRe (lam p eta1 eta2 x y : Rat) : Rat :=
+  lam * (p * eta1 * (eta1 - x) / ((eta1 - x) * (eta1 - x) + y * y)
+    + (1 - p) * eta2 * (eta2 + x) / ((eta2 + x) * (eta2 + x) + y * y) - 1)
+def hemKappaIm (lam p eta1 eta2 x y : Rat) : Rat :=
+  lam * (p * eta1 * y / ((eta1 - x) * (eta1 - x) + y * y) - (1 - p) * eta2 * y / ((eta2 + x) * (eta2 + x) + y * y))
+
+def mertonArgRe (muJ sigmaJ x y : Rat) : Rat := muJ * x + sigmaJ * sigmaJ * (x * x - y * y) / 2
+def mertonArgIm (muJ sigmaJ x y : Rat) : Rat := muJ * y + sigmaJ * sigmaJ * (x * y)
+
+/-- levymodel.py:408 at w = u + i v, given the pure-jump value κ(i w) = kre + i kim -/
+def levyExpRe (a sigma u v kre : Rat) : Rat := -(v * a) - sigma * sigma * (u * u - v * v) / 2 + kre
+def levyExpIm (a sigma u v kim : Rat) : Rat := u * a - sigma * sigma * (u * v) + kim
+
+/-- blackscholes.py:66-88 `_BlackScholesCumulant` (cumulants 3..6 are 0) -/
+def bsCumulant1 (drift t : Rat) : Rat := drift * t
+def bsCumulant2 (sigma t : Rat) : Rat := sigma * sigma * t
+
 end Rpylib.Triplet
